@@ -46,7 +46,7 @@ func init() {
 		Assumptions: []string{"generous fixed thresholds as in C13", "the static scan is a coverage guide: only dynamically witnessed terminations are violations"},
 		Units: func(tier string) []string {
 			return []string{"sigdb", "sigparts", "auth2", "wincert", "sigsupport", "loadopt-seeds", "loadopt-nodes#0", "loadopt-nodes#1", "loadopt-nodes#2", "loadopt-nodes#3", "loadopt-strings",
-				"utf16", "bootorder", "efivars-files", "accessors", "store-probe", "pem", "guid", "static-sites"}
+				"utf16", "bootorder", "efivars-files", "accessors", "store-probe", "pem", "guid", "static-sites", "scaling"}
 		},
 		Run:    c14Run,
 		Budget: dur(6*time.Minute, 40*time.Minute),
@@ -220,6 +220,16 @@ func c14Run(c *hx.Ctx, tier, unit string) {
 			c14Fields(c, "ReadEFIVariableAuthencation2", s, flds, f)
 		}
 		c14Bytes(c, "ReadEFIVariableAuthencation2", seeds[0], f)
+		// every GUID the specification defines x every CertData length 0..600, exact and cut short
+		for _, g := range specGUIDs() {
+			for n := 0; n <= 600; n++ {
+				in := refauth.Auth2{Length: uint32(24 + n), Revision: 0x0200, Type: 0x0EF1, CertType: g, CertData: fill(n, 3)}.Bytes()
+				robustRun(c, "C14", "ReadEFIVariableAuthencation2", "specification GUID x length", in, func() {
+					f(in)
+					signature.ReadWinCertificateUEFIGUID(bytes.NewReader(in[16:]))
+				})
+			}
+		}
 		shortStrings(small, 5, func(b []byte) {
 			robustRun(c, "C14", "ReadEFIVariableAuthencation2", "short string", b, func() { f(b) })
 		})
@@ -392,6 +402,81 @@ func c14Run(c *hx.Ctx, tier, unit string) {
 		a := refauth.Auth2{Length: 24 + 5, Revision: 0x0200, Type: 0x0EF1, CertType: guidPKCS7, CertData: fill(5, 3)}.Bytes()
 		c14Trunc(c, "TestFS.WriteVar descriptor probe", a, probe)
 		c14Fields(c, "TestFS.WriteVar descriptor probe", a, []fieldRef{{"dwLength", 16, 4}, {"wRevision", 20, 2}, {"wCertificateType", 22, 2}}, probe)
+	case unit == "scaling":
+		// time proportional to the input size: each decoder on n and on 8n units of its input
+		e := func(i int) refesl.Entry {
+			d := fill(32, byte(i))
+			d[0], d[1], d[2] = byte(i), byte(i>>8), byte(i>>16)
+			return refesl.Entry{Owner: ownerA, Data: d}
+		}
+		dbf := func(in []byte) {
+			signature.ReadSignatureDatabase(bytes.NewReader(in))
+			var d signature.SignatureDatabase
+			if d.Unmarshal(bytes.NewBuffer(append([]byte{}, in...))) == nil {
+				d.Bytes()
+			}
+		}
+		scalingRun(c, "C14", "ReadSignatureDatabase", "one SHA-256 list with n distinct entries", 8192, func(n int) []byte {
+			es := make([]refesl.Entry, n)
+			for i := range es {
+				es[i] = e(i)
+			}
+			return refesl.Encode([]refesl.List{refesl.Mk(refesl.SHA256, 48, es...)})
+		}, dbf)
+		scalingRun(c, "C14", "ReadSignatureDatabase", "one SHA-256 list with the same entry n times", 8192, func(n int) []byte {
+			es := make([]refesl.Entry, n)
+			for i := range es {
+				es[i] = e(7)
+			}
+			return refesl.Encode([]refesl.List{refesl.Mk(refesl.SHA256, 48, es...)})
+		}, dbf)
+		scalingRun(c, "C14", "ReadSignatureDatabase", "n lists with one entry each", 4096, func(n int) []byte {
+			ls := make([]refesl.List, n)
+			for i := range ls {
+				ls[i] = refesl.Mk(refesl.SHA256, 48, e(i))
+			}
+			return refesl.Encode(ls)
+		}, dbf)
+		scalingRun(c, "C14", "ReadSignatureDatabase", "n identical lists", 4096, func(n int) []byte {
+			ls := make([]refesl.List, n)
+			for i := range ls {
+				ls[i] = refesl.Mk(refesl.SHA256, 48, e(1), e(2))
+			}
+			return refesl.Encode(ls)
+		}, dbf)
+		scalingRun(c, "C14", "EFILoadOption.Unmarshal + Format", "device path with n PCI nodes", 4096, func(n int) []byte {
+			nodes := make([]dpgen.Node, n)
+			for i := range nodes {
+				nodes[i] = dpgen.Node{Kind: "PCI", Function: uint8(i), Device: uint8(i >> 8)}
+			}
+			return dpgen.LoadOption{Attributes: 1, Description: "d", Nodes: nodes}.Bytes()
+		}, func(in []byte) {
+			var o device.EFILoadOption
+			if o.Unmarshal(bytes.NewBuffer(append([]byte{}, in...))) == nil {
+				for _, nd := range o.FilePath {
+					if nd != nil {
+						nd.Format()
+					}
+				}
+			}
+		})
+		scalingRun(c, "C14", "ParseUtf16Var / Efistring", "string of n characters", 1<<16, func(n int) []byte {
+			b := make([]byte, 0, 2*n+2)
+			for i := 0; i < n; i++ {
+				b = append(b, byte('a'+i%26), byte(i%3))
+			}
+			return append(b, 0, 0)
+		}, func(in []byte) {
+			util.ParseUtf16Var(bytes.NewBuffer(append([]byte{}, in...)))
+			var s efivar.Efistring
+			s.Unmarshal(bytes.NewBuffer(append([]byte{}, in...)))
+		})
+		scalingRun(c, "C14", "ReadKey/ReadCert", "PEM file with n blocks of text before the key", 2048, func(n int) []byte {
+			return append(bytes.Repeat([]byte("-----BEGIN NOTHING-----\nAAAA\n-----END NOTHING-----\ncomment line\n"), n), keys.PEM(1)...)
+		}, func(in []byte) {
+			util.ReadKey(in)
+			util.ReadCert(in)
+		})
 	case unit == "pem":
 		f := func(b []byte) {
 			util.ReadKey(b)
